@@ -491,3 +491,44 @@ package log
 //@ func GetAllTags
 //@   modifies elems(string)
 //@   ensures[C18:all-tags] forall t string :: (exists i int :: 0 <= i && i < len(result) && result[i] == t) <==> has(tagRegistry, t)
+
+// ---- C16 / C05: lifecycle -----------------------------------------------------------------------------
+
+// every Stop of a logger (kind 4) or appender (kind 5) is recorded, in order, in the ghost trace stops
+//@ ghost var stops Trace
+
+//@ iface Logger.Stop
+//@   modifies stops
+//@   ensures stops == tsnoc(old(stops), 4, ifval(this), iftag(this), 0, "")
+
+//@ iface Appender.Stop
+//@   modifies stops
+//@   ensures stops == tsnoc(old(stops), 5, ifval(this), iftag(this), 0, "")
+
+//@ spec rec fun stopL(s []Logger, k int, base Trace) Trace = k <= 0 ? base : tsnoc(stopL(s, k-1, base), 4, ifval(s[k-1]), iftag(s[k-1]), 0, "")
+//@ spec rec fun stopA(s []Appender, k int, base Trace) Trace = k <= 0 ? base : tsnoc(stopA(s, k-1, base), 5, ifval(s[k-1]), iftag(s[k-1]), 0, "")
+
+// registries only hold non-nil entries (established by RegisterTag / GetLogger, which create them)
+//@ spec fun regWF() bool = tagRegistry != nil && loggerMap != nil && (forall t string :: has(tagRegistry, t) ==> tagRegistry[t] != nil) && (forall n string :: has(loggerMap, n) ==> loggerMap[n] != nil)
+
+//@ func Destroy
+//@   requires regWF()
+//@   requires forall k int :: 0 <= k && k < len(global.loggers) ==> global.loggers[k] != nil
+//@   requires forall k int :: 0 <= k && k < len(global.appenders) ==> global.appenders[k] != nil
+//@   let ls = global.loggers
+//@   let as = global.appenders
+//@   modifies stops, global, all(Tag.logger), all(LoggerWrapper.logger)
+//@   ensures[C16:idle] !old(global.init) ==> stops == old(stops) && (forall t string :: has(tagRegistry, t) ==> tagRegistry[t].logger == old(tagRegistry[t].logger))
+//@   ensures[C05:loggers-before-appenders] old(global.init) ==> stops == stopA(as, len(as), stopL(ls, len(ls), old(stops)))
+//@   ensures[C16:tags-unbound] old(global.init) ==> (forall t string :: has(tagRegistry, t) ==> tagRegistry[t].logger == nil)
+//@   ensures[C16:handles-unbound] old(global.init) ==> (forall n string :: has(loggerMap, n) ==> loggerMap[n].logger == nil)
+//@   ensures[C16,C05:reset] !global.init && (old(global.init) ==> len(global.loggers) == 0 && len(global.appenders) == 0)
+//@   loop 1 invariant[C05:range] 0 <= $k && $k <= len(ls)
+//@   loop 1 invariant[C05:stopped-prefix] stops == stopL(ls, $k, old(stops))
+//@   loop 2 invariant[C05:range] 0 <= $k && $k <= len(as)
+//@   loop 2 invariant[C05:stopped-prefix] stops == stopA(as, $k, stopL(ls, len(ls), old(stops)))
+//@   loop 3 invariant[C16:tags-visited] forall t string :: $visited[t] ==> tagRegistry[t].logger == nil
+//@   loop 3 invariant[C05:stopped-all] stops == stopA(as, len(as), stopL(ls, len(ls), old(stops)))
+//@   loop 4 invariant[C16:handles-visited] forall n string :: $visited[n] ==> loggerMap[n].logger == nil
+//@   loop 4 invariant[C16:tags-done] forall t string :: has(tagRegistry, t) ==> tagRegistry[t].logger == nil
+//@   loop 4 invariant[C05:stopped-all] stops == stopA(as, len(as), stopL(ls, len(ls), old(stops)))
